@@ -265,6 +265,20 @@ def run_check(prop, tier, seed):
     assum, alog = ({}, "")
     if ok:
         assum, alog = step_assumptions(prop)
+    # thorough tier: independent re-check of the property's .vo closure with coqchk
+    coqchk_note = None
+    if ok and tier == "thorough" and theorems:
+        with locked("coq"):
+            try:
+                rc_c, out_c = sh(["coqchk", "-o", "-silent", "-Q", os.path.join(COQ, "theories"), "DTR", "DTR.props." + prop],
+                                 timeout=3000, cwd=COQ)
+            except subprocess.TimeoutExpired:
+                rc_c, out_c = 1, "coqchk timed out"
+        ax = re.search(r"\* Axioms:\s*(.*?)\n\s*\n", out_c + "\n\n", re.S)
+        coqchk_note = "rc=%d axioms=%s" % (rc_c, " ".join(ax.group(1).split()) if ax else "?")
+        cov["coqchk"] = coqchk_note
+        if rc_c != 0 or not ax or "<none>" not in ax.group(1):
+            proof_broken = "coqchk did not confirm the closure of props/%s.vo without axioms: %s" % (prop, coqchk_note)
     hyg = hygiene()
     discharged = 0
     bad_axioms = {}
